@@ -352,6 +352,7 @@ func init() {
 			{"dead-update", "no struct-typed local is assigned and field-updated without ever being read, passed on or returned (a modified copy that is lost while the stale original goes on being used)", func(c *Ctx) { ruleDeadUpdate(c, "pkg/core/native", "pkg/core/state") }},
 			{"check-all-loop", "a loop that rejects on a property of each element with an error return is not left early with a break (the elements after it would escape the check)", func(c *Ctx) { ruleCheckAllLoop(c, "pkg/core/native", "pkg/core/state") }},
 			{"vote-deposit-flow", "a non-zero balance change of a voting account passes modifyVoterTurnout on every successful path; every path of Notary.onPayment to the stored deposit adds the received amount", ruleVoteAndDepositFlow},
+			{"amount-exact", "the deltas handed to the balance updaters never pass through big.Int.Int64/Uint64: debit and credit of one movement use the same arbitrary-precision amount", ruleAmountExact},
 			{"token-writers", "account balances, total supply, voters count, candidate records and notary deposits are written only by the tabled functions that keep them consistent; saveTotalSupply runs only inside addTokens; a stored candidate record is never replaced by a blank one", ruleTokenWriters},
 			{"amount-immutable", "no native function leaves a *big.Int parameter modified: in-place negation is flipped back on every path, no other mutator has a parameter as receiver (the amount of an already emitted Transfer event is the same integer)", ruleAmountImmutable},
 		},
